@@ -49,6 +49,13 @@ func hexarg(s string) []byte {
 	if s == "-" {
 		return []byte{}
 	}
+	if b, ok := sharedHex[s]; ok {
+		return b
+	}
+	return hexargRaw(s)
+}
+
+func hexargRaw(s string) []byte {
 	b, err := hex.DecodeString(s)
 	if err != nil {
 		panic("bad hex " + s)
@@ -73,6 +80,14 @@ func runCase(h handler, args []string) (out string) {
 }
 
 func main() {
+	if len(os.Args) >= 5 && os.Args[1] == "-race-run" {
+		raceMain(intarg(os.Args[2]), intarg(os.Args[3]), int64(intarg(os.Args[4])))
+		return
+	}
+	if len(os.Args) >= 3 && os.Args[1] == "-footprint" {
+		footprintMain(os.Args[2])
+		return
+	}
 	if len(os.Args) >= 3 && os.Args[1] == "-tables" {
 		tablesMain(os.Args[2])
 		return
